@@ -81,6 +81,13 @@ def job(j):
                         res = [[-1, -1]]
                     cnts.append({"v": v, "thr": thr, "res": res})
             c["cnts"] = cnts
+            # decode_output must not modify the outcome it is given (a list shorter than the register is padded)
+            arg = [True]
+            try:
+                obj.decode_output(arg)
+            except Exception:
+                pass
+            c["argmut"] = arg != [True]
             if c["nq"] > 14:
                 c["status"] = "too-many-qubits"
         except _TO:
